@@ -165,3 +165,228 @@ Theorem text_after : forall o f pre h1 hs' st',
   process_patch o ((join_lines pre ++ emit_hunks (h1 :: hs')) ++ t2) w = process_patch o (join_lines pre ++ emit_hunks (h1 :: hs')) w.
 Proof. exact Proofs_Sections_Unified.unified_section_text_after. Qed.
 Print Assumptions text_after.
+
+(* ===== merged from Properties_Sections_Other.v (context and normal sections) ===== *)
+From PatchV Require Import Base Lines Hunk Locator Formatter Options Applier LineParser Parser World Driver
+     Proofs_Base Proofs_Lines Proofs_Fuel Proofs_Unified Proofs_Filler Proofs_Progress Proofs_Sections Proofs_Sections_Unified
+     Proofs_Names Proofs_CtxLines Proofs_CtxMerge Proofs_Context Spec_Normal Proofs_Normal
+     Proofs_ArithParse Proofs_ArithHeader Proofs_Status Proofs_StatusDriver Proofs_Whole Proofs_Sections_Other.
+(* ---------------------------------------------------------------------------------------------------------------
+   C11, context sections
+   --------------------------------------------------------------------------------------------------------------- *)
+Theorem context_header_scan : forall strip f fl oldname t1 newname t2 h1 hs tail,
+  f = FUnknown \/ f = FContext ->
+  Forall (Filler strip (empty_patch f)) fl -> Forall clean fl ->
+  plain_name oldname -> plain_name newname -> clean (oldname ++ tab_time t1) -> clean (newname ++ tab_time t2) ->
+  Forall wf_hunk_c (h1 :: hs) ->
+  parse_patch_header_full (empty_patch f) strip
+    (strm (join_lines (fl ++ [bs "*** " ++ oldname ++ tab_time t1; bs "--- " ++ newname ++ tab_time t2]) ++ emit_c (h1 :: hs) ++ tail)) =
+  Ok (true,
+      mkPatch FContext (decide_oper_c h1 (stripped oldname strip) (stripped newname strip)) [] []
+              (stripped oldname strip) (stripped newname strip) (opt_or (time_read t1) []) (opt_or (time_read t2) []) 0 0 [],
+      strm (emit_c (h1 :: hs) ++ tail), true).
+Proof. exact Proofs_Sections_Other.context_header_scan. Qed.
+Print Assumptions context_header_scan.
+
+(* with the result of the header scan as a hypothesis (any lines in front) *)
+Theorem context_sections_sum : forall o f pre h1 hs' st',
+  format_from_options o = Ok f ->
+  Forall clean pre ->
+  Forall wf_hunk_c (h1 :: hs') ->
+  scan (strip_size o) (st0 (empty_patch f)) (pre ++ [stars; orange_line (oldr h1)]) = Some st' ->
+  h_first st' = S (length pre) ->
+  h_body st' = true ->
+  pfmt (header_patch st') = FContext ->
+  poper (header_patch st') <> OpBinary ->
+  forall t2 st1 sA w w1,
+  tail_ok_c t2 -> t2 <> [] ->
+  process_section o ds0 true (header_patch st') (strm (emit_c (h1 :: hs'))) w = (Ok (st1, sA), w1) ->
+  deferred_writes st1 = [] -> deferred_removals st1 = [] ->
+  has_patch o f (stream_of t2) = true ->
+  (may_backup o = true -> forall q, In q (targets_met (S (S (length t2))) o f ds0 (stream_of t2) w1) -> fresh_backup o st1 q) ->
+  process_patch o (join_lines pre ++ emit_c (h1 :: hs')) w = (Ok (exit_of st1, events st1), w1) /\
+  process_patch o ((join_lines pre ++ emit_c (h1 :: hs')) ++ t2) w = map_result (after_run st1) (process_patch o t2) w1.
+Proof. exact Proofs_Sections_Other.context_sections_sum. Qed.
+Print Assumptions context_sections_sum.
+
+(* with the header diff -c writes: nothing about the parser is left among the hypotheses *)
+Theorem context_run_sum : forall o f fl oldname t1 newname t2 h1 hs' tx st1 sA w w1,
+  format_from_options o = Ok f -> f = FUnknown \/ f = FContext ->
+  Forall (Filler (strip_size o) (empty_patch f)) fl -> Forall clean fl ->
+  plain_name oldname -> plain_name newname -> clean (oldname ++ tab_time t1) -> clean (newname ++ tab_time t2) ->
+  Forall wf_hunk_c (h1 :: hs') ->
+  let oldp := stripped oldname (strip_size o) in
+  let newp := stripped newname (strip_size o) in
+  let p := mkPatch FContext (decide_oper_c h1 oldp newp) [] [] oldp newp (opt_or (time_read t1) []) (opt_or (time_read t2) []) 0 0 [] in
+  let text := join_lines (fl ++ [bs "*** " ++ oldname ++ tab_time t1; bs "--- " ++ newname ++ tab_time t2]) ++ emit_c (h1 :: hs') in
+  tail_ok_c tx -> tx <> [] ->
+  process_section o ds0 true p (strm (emit_c (h1 :: hs'))) w = (Ok (st1, sA), w1) ->
+  deferred_writes st1 = [] -> deferred_removals st1 = [] ->
+  has_patch o f (stream_of tx) = true ->
+  (may_backup o = true -> forall q, In q (targets_met (S (S (length tx))) o f ds0 (stream_of tx) w1) -> fresh_backup o st1 q) ->
+  process_patch o text w = (Ok (exit_of st1, events st1), w1) /\
+  process_patch o (text ++ tx) w = map_result (after_run st1) (process_patch o tx) w1.
+Proof. exact Proofs_Sections_Other.context_run_sum. Qed.
+Print Assumptions context_run_sum.
+
+Theorem context_section_text_after : forall o f pre h1 hs' st',
+  format_from_options o = Ok f ->
+  Forall clean pre ->
+  Forall wf_hunk_c (h1 :: hs') ->
+  scan (strip_size o) (st0 (empty_patch f)) (pre ++ [stars; orange_line (oldr h1)]) = Some st' ->
+  h_first st' = S (length pre) ->
+  h_body st' = true ->
+  pfmt (header_patch st') = FContext ->
+  poper (header_patch st') <> OpBinary ->
+  forall t2 st1 sA w w1,
+  tail_ok_c t2 -> t2 <> [] ->
+  process_section o ds0 true (header_patch st') (strm (emit_c (h1 :: hs'))) w = (Ok (st1, sA), w1) ->
+  deferred_writes st1 = [] -> deferred_removals st1 = [] ->
+  ends_here o f (stream_of t2) = true ->
+  process_patch o ((join_lines pre ++ emit_c (h1 :: hs')) ++ t2) w = (Ok (exit_of st1, events st1), w1) /\
+  process_patch o ((join_lines pre ++ emit_c (h1 :: hs')) ++ t2) w = process_patch o (join_lines pre ++ emit_c (h1 :: hs')) w.
+Proof. exact Proofs_Sections_Other.context_section_text_after. Qed.
+Print Assumptions context_section_text_after.
+
+Theorem context_section_throws : forall o f pre h1 hs' st',
+  format_from_options o = Ok f ->
+  Forall clean pre ->
+  Forall wf_hunk_c (h1 :: hs') ->
+  scan (strip_size o) (st0 (empty_patch f)) (pre ++ [stars; orange_line (oldr h1)]) = Some st' ->
+  h_first st' = S (length pre) ->
+  h_body st' = true ->
+  pfmt (header_patch st') = FContext ->
+  poper (header_patch st') <> OpBinary ->
+  forall t2 e w w1,
+  tail_ok_c t2 ->
+  process_section o ds0 true (header_patch st') (strm (emit_c (h1 :: hs'))) w = (Throw e, w1) ->
+  process_patch o (join_lines pre ++ emit_c (h1 :: hs')) w = (Throw e, w1) /\
+  process_patch o ((join_lines pre ++ emit_c (h1 :: hs')) ++ t2) w = (Throw e, w1).
+Proof. exact Proofs_Sections_Other.context_section_throws. Qed.
+Print Assumptions context_section_throws.
+
+(* ---------------------------------------------------------------------------------------------------------------
+   C11, normal sections
+   --------------------------------------------------------------------------------------------------------------- *)
+Theorem normal_header_scan : forall strip f fl h1 hs tail,
+  f = FUnknown \/ f = FNormal ->
+  Forall (Filler strip (empty_patch f)) fl -> Forall clean fl ->
+  Forall wf_hunk_n (h1 :: hs) ->
+  parse_patch_header_full (empty_patch f) strip (strm (join_lines fl ++ emit_normal (h1 :: hs) ++ tail)) =
+  Ok (true, mkPatch FNormal (decide_oper_n h1) [] [] [] [] [] [] 0 0 [], strm (emit_normal (h1 :: hs) ++ tail), true).
+Proof. exact Proofs_Sections_Other.normal_header_scan. Qed.
+Print Assumptions normal_header_scan.
+
+Theorem normal_header_scan_index : forall strip f fl ixname ixt fl2 h1 hs tail,
+  f = FUnknown \/ f = FNormal ->
+  Forall (Filler strip (empty_patch f)) fl -> Forall clean fl ->
+  plain_name ixname -> clean (ixname ++ tab_time ixt) ->
+  Forall (Filler strip (set_index (empty_patch f) (stripped ixname strip))) fl2 -> Forall clean fl2 ->
+  Forall wf_hunk_n (h1 :: hs) ->
+  parse_patch_header_full (empty_patch f) strip
+    (strm (join_lines (fl ++ [bs "Index: " ++ ixname ++ tab_time ixt] ++ fl2) ++ emit_normal (h1 :: hs) ++ tail)) =
+  Ok (true, mkPatch FNormal (decide_oper_n h1) (stripped ixname strip) [] [] [] [] [] 0 0 [], strm (emit_normal (h1 :: hs) ++ tail), true).
+Proof. exact Proofs_Sections_Other.normal_header_scan_index. Qed.
+Print Assumptions normal_header_scan_index.
+
+Theorem normal_sections_sum : forall o f pre h1 hs' st',
+  format_from_options o = Ok f ->
+  Forall clean pre ->
+  Forall wf_hunk_n (h1 :: hs') ->
+  scan (strip_size o) (st0 (empty_patch f)) (pre ++ [normal_header h1; first_line_n h1]) = Some st' ->
+  h_first st' = S (length pre) ->
+  h_body st' = true ->
+  pfmt (header_patch st') = FNormal ->
+  poper (header_patch st') <> OpBinary ->
+  forall t2 st1 sA w w1,
+  tail_ok_n t2 -> seof (after_n t2) = false ->
+  let t2' := rest (after_n t2) in
+  process_section o ds0 true (header_patch st') (strm (emit_normal (h1 :: hs'))) w = (Ok (st1, sA), w1) ->
+  deferred_writes st1 = [] -> deferred_removals st1 = [] ->
+  has_patch o f (stream_of t2') = true ->
+  (may_backup o = true -> forall q, In q (targets_met (S (S (length t2'))) o f ds0 (stream_of t2') w1) -> fresh_backup o st1 q) ->
+  process_patch o (join_lines pre ++ emit_normal (h1 :: hs')) w = (Ok (exit_of st1, events st1), w1) /\
+  process_patch o ((join_lines pre ++ emit_normal (h1 :: hs')) ++ t2) w = map_result (after_run st1) (process_patch o t2') w1.
+Proof. exact Proofs_Sections_Other.normal_sections_sum. Qed.
+Print Assumptions normal_sections_sum.
+
+(* the file named by an "Index:" line *)
+Theorem normal_run_sum_index : forall o f fl ixname ixt fl2 h1 hs' tx st1 sA w w1,
+  format_from_options o = Ok f -> f = FUnknown \/ f = FNormal ->
+  Forall (Filler (strip_size o) (empty_patch f)) fl -> Forall clean fl ->
+  plain_name ixname -> clean (ixname ++ tab_time ixt) ->
+  Forall (Filler (strip_size o) (set_index (empty_patch f) (stripped ixname (strip_size o)))) fl2 -> Forall clean fl2 ->
+  Forall wf_hunk_n (h1 :: hs') ->
+  let p := mkPatch FNormal (decide_oper_n h1) (stripped ixname (strip_size o)) [] [] [] [] [] 0 0 [] in
+  let text := join_lines (fl ++ [bs "Index: " ++ ixname ++ tab_time ixt] ++ fl2) ++ emit_normal (h1 :: hs') in
+  tail_ok_n tx -> seof (after_n tx) = false ->
+  let tx' := rest (after_n tx) in
+  process_section o ds0 true p (strm (emit_normal (h1 :: hs'))) w = (Ok (st1, sA), w1) ->
+  deferred_writes st1 = [] -> deferred_removals st1 = [] ->
+  has_patch o f (stream_of tx') = true ->
+  (may_backup o = true -> forall q, In q (targets_met (S (S (length tx'))) o f ds0 (stream_of tx') w1) -> fresh_backup o st1 q) ->
+  process_patch o text w = (Ok (exit_of st1, events st1), w1) /\
+  process_patch o (text ++ tx) w = map_result (after_run st1) (process_patch o tx') w1.
+Proof. exact Proofs_Sections_Other.normal_run_sum_index. Qed.
+Print Assumptions normal_run_sum_index.
+
+(* the file named by the operand *)
+Theorem normal_run_sum_operand : forall o f fl h1 hs' tx st1 sA w w1,
+  format_from_options o = Ok f -> f = FUnknown \/ f = FNormal ->
+  Forall (Filler (strip_size o) (empty_patch f)) fl -> Forall clean fl ->
+  Forall wf_hunk_n (h1 :: hs') ->
+  let p := mkPatch FNormal (decide_oper_n h1) [] [] [] [] [] [] 0 0 [] in
+  let text := join_lines fl ++ emit_normal (h1 :: hs') in
+  tail_ok_n tx -> seof (after_n tx) = false ->
+  let tx' := rest (after_n tx) in
+  process_section o ds0 true p (strm (emit_normal (h1 :: hs'))) w = (Ok (st1, sA), w1) ->
+  deferred_writes st1 = [] -> deferred_removals st1 = [] ->
+  has_patch o f (stream_of tx') = true ->
+  (may_backup o = true -> forall q, In q (targets_met (S (S (length tx'))) o f ds0 (stream_of tx') w1) -> fresh_backup o st1 q) ->
+  process_patch o text w = (Ok (exit_of st1, events st1), w1) /\
+  process_patch o (text ++ tx) w = map_result (after_run st1) (process_patch o tx') w1.
+Proof. exact Proofs_Sections_Other.normal_run_sum_operand. Qed.
+Print Assumptions normal_run_sum_operand.
+
+Theorem normal_section_text_after : forall o f pre h1 hs' st',
+  format_from_options o = Ok f ->
+  Forall clean pre ->
+  Forall wf_hunk_n (h1 :: hs') ->
+  scan (strip_size o) (st0 (empty_patch f)) (pre ++ [normal_header h1; first_line_n h1]) = Some st' ->
+  h_first st' = S (length pre) ->
+  h_body st' = true ->
+  pfmt (header_patch st') = FNormal ->
+  poper (header_patch st') <> OpBinary ->
+  forall t2 st1 sA w w1,
+  tail_ok_n t2 ->
+  process_section o ds0 true (header_patch st') (strm (emit_normal (h1 :: hs'))) w = (Ok (st1, sA), w1) ->
+  deferred_writes st1 = [] -> deferred_removals st1 = [] ->
+  ends_here o f (after_n t2) = true ->
+  process_patch o ((join_lines pre ++ emit_normal (h1 :: hs')) ++ t2) w = (Ok (exit_of st1, events st1), w1) /\
+  process_patch o ((join_lines pre ++ emit_normal (h1 :: hs')) ++ t2) w = process_patch o (join_lines pre ++ emit_normal (h1 :: hs')) w.
+Proof. exact Proofs_Sections_Other.normal_section_text_after. Qed.
+Print Assumptions normal_section_text_after.
+
+Theorem normal_section_throws : forall o f pre h1 hs' st',
+  format_from_options o = Ok f ->
+  Forall clean pre ->
+  Forall wf_hunk_n (h1 :: hs') ->
+  scan (strip_size o) (st0 (empty_patch f)) (pre ++ [normal_header h1; first_line_n h1]) = Some st' ->
+  h_first st' = S (length pre) ->
+  h_body st' = true ->
+  pfmt (header_patch st') = FNormal ->
+  poper (header_patch st') <> OpBinary ->
+  forall t2 e w w1,
+  tail_ok_n t2 ->
+  process_section o ds0 true (header_patch st') (strm (emit_normal (h1 :: hs'))) w = (Throw e, w1) ->
+  process_patch o (join_lines pre ++ emit_normal (h1 :: hs')) w = (Throw e, w1) /\
+  process_patch o ((join_lines pre ++ emit_normal (h1 :: hs')) ++ t2) w = (Throw e, w1).
+Proof. exact Proofs_Sections_Other.normal_section_throws. Qed.
+Print Assumptions normal_section_throws.
+
+(* ---------------------------------------------------------------------------------------------------------------
+   sections of any formats, chained
+   --------------------------------------------------------------------------------------------------------------- *)
+Theorem mixed_concatenation_is_sequence : forall o ts w, seq_ok o ts w -> process_patch o (concat ts) w = runs o ts w.
+Proof. exact Proofs_Sections_Other.seq_sum. Qed.
+Print Assumptions mixed_concatenation_is_sequence.
